@@ -431,7 +431,8 @@ def neutral_program(Q, rnd):
             sub = Q.from_(T("v")).select(T("v").id).where(T("v").k == rnd.randint(0, 5))
             return term(depth).isin(sub)
         return ~crit(depth - 1) if depth > 0 else term(0).like("a%")
-    q = Q.from_(t).select(term(2).as_("x1"), term(1))
+    x1 = term(2).as_("x1")
+    q = Q.from_(t).select(x1, term(1))
     if rnd.random() < 0.7:
         q = q.join(u).on(t.id == u.id)
     if rnd.random() < 0.3:
@@ -443,6 +444,9 @@ def neutral_program(Q, rnd):
         q = q.groupby(t.a, term(1)).having(fn("Count")(t.b) > rnd.randint(0, 3))
     if rnd.random() < 0.6:
         q = q.orderby(term(1), order=rnd.choice([r["Order"].asc, r["Order"].desc]))
+    if rnd.random() < 0.4:
+        # ordering by a term the select list names: every dialect refers to it by that name (only GROUP BY has a per-dialect policy)
+        q = q.orderby(x1)
     if rnd.random() < 0.3:
         q = q.distinct()
     return q
